@@ -334,7 +334,7 @@ class SoupClientSessionSync:
         self.bridge.execute_sync(self.session.send_debug, text)
 
     def send_unseq_data(self, data: bytes):
-        self.session.send_unseq_data(data)
+        self.bridge.execute_sync(self.session.send_unseq_data, data)
 
     def logout(self):
         with self.close_lock:
